@@ -457,40 +457,52 @@ unsafe fn do_spawn<F: PreExec>(
     let child_pid = rusl::process::fork()?;
     // From this point we're two processes
     if child_pid == 0 {
-        // Executing as child process
+        // Executing as child process, which must never return into the caller's code:
+        // a failure of any step up to and including exec is reported to the parent
+        // through the sync pipe, then the child exits.
         let _ = rusl::unistd::close(read_pipe);
-        if let Some(fd) = theirs.stdin.fd() {
-            rusl::unistd::dup2(fd, STDIN)?;
-        }
-        if let Some(fd) = theirs.stdout.fd() {
-            rusl::unistd::dup2(fd, STDOUT)?;
-        }
-        if let Some(fd) = theirs.stderr.fd() {
-            rusl::unistd::dup2(fd, STDERR)?;
-        }
-        if let Some(cwd) = cwd {
-            rusl::unistd::chdir(cwd)?;
-        }
-        if let Some(uid) = uid {
-            rusl::unistd::setuid(uid)?;
-        }
-        if let Some(gid) = gid {
-            rusl::unistd::setgid(gid)?;
-        }
-        if let Some(pgroup) = pgroup {
-            rusl::unistd::setpgid(0, pgroup)?;
-        }
-        for closure in closures {
-            closure.run()?;
-        }
-        let Err(e) = rusl::process::execve(bin, argv, envp) else {
-            // execve only returns on error.
-            unreachable_unchecked();
+        let mut setup = || -> Result<()> {
+            if let Some(fd) = theirs.stdin.fd() {
+                rusl::unistd::dup2(fd, STDIN)?;
+            }
+            if let Some(fd) = theirs.stdout.fd() {
+                rusl::unistd::dup2(fd, STDOUT)?;
+            }
+            if let Some(fd) = theirs.stderr.fd() {
+                rusl::unistd::dup2(fd, STDERR)?;
+            }
+            if let Some(cwd) = cwd {
+                rusl::unistd::chdir(cwd)?;
+            }
+            if let Some(uid) = uid {
+                rusl::unistd::setuid(uid)?;
+            }
+            if let Some(gid) = gid {
+                rusl::unistd::setgid(gid)?;
+            }
+            if let Some(pgroup) = pgroup {
+                rusl::unistd::setpgid(0, pgroup)?;
+            }
+            for closure in closures.iter_mut() {
+                closure.run()?;
+            }
+            Ok(())
         };
-        let code: [u8; 4] = if let Some(code) = e.code {
+        let e: Error = match setup() {
+            Ok(()) => {
+                let Err(e) = rusl::process::execve(bin, argv, envp) else {
+                    // execve only returns on error.
+                    unreachable_unchecked();
+                };
+                e.into()
+            }
+            Err(e) => e,
+        };
+        // An error without an os code (a pre-exec closure may return one) is reported as EINVAL
+        let code: [u8; 4] = if let Error::Os { code, .. } = e {
             code.raw().to_be_bytes()
         } else {
-            rusl::process::exit(1)
+            Errno::EINVAL.raw().to_be_bytes()
         };
         let bytes = [
             code[0],
